@@ -799,7 +799,10 @@ impl Property for C16 {
         ];
         let api = prop_oneof![4 => Just(Api::Trait), 1 => Just(Api::Rln)];
         (depth, cfg_strategy(), api, proptest::collection::vec(op_c16(), 1..14), mode)
-            .prop_map(|(depth, cfg, api, ops, mode)| Case { depth, cfg, api, ops, mode })
+            .prop_map(|(depth, cfg, api, mut ops, mode)| {
+                tame_for_depth20(depth, &mut ops);
+                Case { depth, cfg, api, ops, mode }
+            })
             .boxed()
     }
     fn check(&self, ctx: &Ctx, case: &Case) -> Outcome {
